@@ -446,6 +446,42 @@ func childC19(args []string) int {
 		if used != n {
 			run.Violation("cluster|end-to-end|a node receives no key of a large sample", map[string]interface{}{"nodes": n, "nodes_used": used, "keys": nk})
 		}
+		// a connection set up while one node does not accept connections: it is either refused
+		// or routes exactly like the connections set up before and after
+		for down := 0; down < n; down += 2 {
+			srvs[down].StopListening()
+			h3, err3 := cluster.NewHandler(addrs, "c3")
+			if err := srvs[down].StartListening(); err != nil {
+				run.Inconclusive("cannot listen again on " + addrs[down] + ": " + err.Error())
+				break
+			}
+			run.Count("constructions_with_a_node_down", 1)
+			if err3 != nil {
+				run.Count("constructions_refused_with_a_node_down", 1)
+				continue
+			}
+			bad := ""
+			var w map[string]interface{}
+			for i := 0; i < run.Pick(150, 1500) && bad == ""; i++ {
+				key := fmt.Sprintf("e2e-down-%d-%d-%d", n, down, i)
+				val := makeValue(uint32(i), 16)
+				a, b := h1, h3
+				if i%2 == 1 {
+					a, b = h3, h1
+				}
+				sres := handlerExec(a, wire.Cmd{Op: "set", Key: key, Value: val, Flags: 9}, 0)
+				gres := handlerExec(b, wire.Cmd{Op: "get", Keys: []string{key}, Opaque: 2}, 0)
+				run.Count("end_to_end_keys", 1)
+				if sres.Class != "ok" || len(gres.Values) != 1 || string(gres.Values[0].Data) != string(val) {
+					bad = "a connection set up while a node was unreachable routes keys differently from the other connections"
+					w = map[string]interface{}{"nodes": addrs, "node_down_at_setup": addrs[down], "key": key, "set": sres.Class, "get": brief(gres)}
+				}
+			}
+			if bad != "" {
+				run.Violation("cluster|end-to-end|"+bad, w)
+			}
+			h3.Close()
+		}
 		h1.Close()
 		h2.Close()
 		for _, s := range srvs {
